@@ -364,6 +364,8 @@ def apply_edit(draw, s, kind, uid, protected=None):
             o = draw(st.sampled_from(cands))
             types[o]["interfaces"].append(i)
             have = {f["name"] for f in types[o]["fields"]}
+            if have & {f["name"] for f in types[i]["fields"]}:
+                return None   # an own field of that name may not be a valid implementation of the interface's: not this edit
             copied = [json.loads(json.dumps(f)) for f in types[i]["fields"] if f["name"] not in have]
             types[o]["fields"] = copied + types[o]["fields"]
             e = out(["TypeAddedToInterface"], [i, o], False)
